@@ -242,6 +242,7 @@ def _r112(ctx: Ctx) -> None:
     def mk(o):
         o.fields.update({'id': 'ID', 'params': {}, 'n': 1, 'k': 1, 'd': 1})
         return o
+    initial = []
     for preload in (0, 2):
         hooks = H()
         it = Interp(m, hooks)
@@ -255,6 +256,7 @@ def _r112(ctx: Ctx) -> None:
                             {'rng': Term('sim_rng')}, init[1], self_obj=sim)
             res = sim.fields['_results']
             lists = sorted(k for k, v in res.items() if isinstance(v, list))
+            initial.append({k: (list(v) if isinstance(v, list) else v) for k, v in res.items()})
             for k in lists:
                 res[k].extend(Tagged('old', k, i) for i in range(preload))
             res['n_runs'] = preload
@@ -280,6 +282,18 @@ def _r112(ctx: Ctx) -> None:
                bad is None, bad or '', key=f'DirectSimulation._run|accounting[{preload}]',
                facts={k: len(v) if isinstance(v, list) else v for k, v in res.items()})
 
+    # a new simulation starts from nothing: empty lists, zero runs (the lists have length n_runs from the first trial on)
+    ctx.need(initial, 'R11.2', site, 'initial results not observed')
+    ini = initial[0]
+    bad0 = None
+    if ini.get('n_runs') != 0:
+        bad0 = f"a new simulation starts with n_runs = {ini.get('n_runs')!r}"
+    elif any(isinstance(v, list) and v for v in ini.values()):
+        bad0 = f'a new simulation starts with non-empty lists: { {k: v for k, v in ini.items() if isinstance(v, list) and v} }'
+    elif ini.get('wall_time') != 0:
+        bad0 = f"a new simulation starts with wall_time = {ini.get('wall_time')!r}"
+    ctx.ob('R11.2', site_of(mi, init[1]), 'a new DirectSimulation starts with n_runs = 0, wall_time = 0 and empty per-trial lists',
+           bad0 is None, bad0 or '', key='DirectSimulation.__init__|initial-results', facts={k: repr(v) for k, v in ini.items()})
     # estimator
     gr = ci.methods.get('get_results')
     ctx.need(gr is not None, 'R11.2', site_of(mi, ci.node), 'get_results not found')
@@ -492,7 +506,7 @@ def _r113(ctx: Ctx) -> None:
 
 def run(ctx: Ctx) -> None:
     ctx.rule('R11.1', 'run_once: generate -> measure -> decode -> add mod 2 -> classify; recorded keys bound to their roles', floor=4)
-    ctx.rule('R11.2', 'per-trial accounting of _run and the estimator of get_results', floor=6)
+    ctx.rule('R11.2', 'per-trial accounting of _run and the estimator of get_results', floor=7)
     ctx.rule('R11.3', 'no process-global generator reachable from _run when an rng is supplied', floor=4)
     ctx.trust('success test itself and the logical-effect layout are decided in C04; the sampler in C07; decoder '
               'purity in C06')
